@@ -12,7 +12,7 @@ import pipe_build
 from chk_chanconc import run_many, concat, exec_of
 
 HDR = 96
-BPP = {"u8": 1, "i8": 1, "u16": 2, "i16": 2}
+BPP = {"u8": 1, "i8": 1, "u16": 2, "i16": 2, "u10": 2, "u12": 2, "u14": 2, "f32": 4}
 
 RULES = {
     "C08": {"UseAfterClose", "UseOfUnknownHandle", "UseAfterShutdown", "HandleReused", "ClosedTwice", "ClosedWhileRunning",
@@ -60,7 +60,8 @@ def sched_lines(rng, nthreads):
 
 def stream_line(rng, s, fam, avg=1):
     w, h = rng.randint(1, 9), rng.randint(1, 5)
-    ty = rng.choice(["u8", "u8", "u16", "i8", "i16"])
+    # (all sample types of the property headers; the averaging filter takes the integer ones)
+    ty = rng.choice(["u8", "u8", "u16", "i8", "i16", "u10", "u12", "u14"] + (["f32"] if avg <= 1 else []))
     n = rng.randint(1, 12)
     if avg > 1:
         n = rng.randint(avg, 5 * avg + 1)
@@ -138,7 +139,7 @@ def gen_config(rng, fam, out, i):
             if a > 0 and rng.random() < 0.4:
                 # another sample type at unchanged dimensions: only the bytes per pixel (and so the frame size) change
                 s = rng.randrange(ns)
-                nt = rng.choice([t for t in ["u8", "u16", "i8", "i16"] if t != streams[s].get("type2", streams[s]["type"])])
+                nt = rng.choice([t for t in ["u8", "u16", "i8", "i16", "u12"] + (["f32"] if avg <= 1 else []) if t != streams[s].get("type2", streams[s]["type"])])
                 if frame_bytes(streams[s].get("w2", streams[s]["w"]), streams[s].get("h2", streams[s]["h"]), nt) < cap:
                     prog += ["pixtype", str(s), nt]
                     streams[s]["type2"] = nt
